@@ -179,7 +179,7 @@ def coq_args(params):
 
 def model_file(items):
     """items: list of ('run', coq fn term, args) | ('doc', mod, fn, args)"""
-    lines = ["From Coq Require Import List String Floats.", "From V.C20 Require Import Model Spec GenGates Show.",
+    lines = ["From Coq Require Import List String PrimFloat.", "From V.C20 Require Import Model Spec GenGates Show.",
              "Import ListNotations.", "Open Scope string_scope.", "Definition outs : list string := ["]
     its = []
     for it in items:
